@@ -7,6 +7,7 @@ the loader rewrites:
   N3  if not c: A else: B              ->  if c: B else: A           (two-armed ifs; elif chains untouched)
   N4  t = E; return t                  ->  return E                  (t bound immediately before, used only there)
   N5  assert True / bare constants     ->  removed                   (expression statements that are constants, except docstrings)
+  N7  logging.<...>(...) / warnings.<...>(...) statements -> removed    (calls rooted at the logging / warnings modules)
   N6  while True: if X: break; rest    ->  while not X: rest         (loops without else whose first statement is the exit test)
 Line numbers of the surviving statements are preserved, so reports still point at the original source lines.
 """
@@ -108,7 +109,51 @@ class _N(ast.NodeTransformer):
     visit_AsyncFunctionDef = visit_FunctionDef
 
 
+INERT_MODULES = {"logging", "warnings"}
+
+
+def _inert_roots(tree: ast.Module):
+    """names bound to the logging / warnings modules, and module-level loggers (x = logging.getLogger(...))"""
+    roots = set()
+    for n in ast.walk(tree):
+        if isinstance(n, ast.Import):
+            for a in n.names:
+                if a.name.split(".")[0] in INERT_MODULES:
+                    roots.add(a.asname or a.name.split(".")[0])
+        elif isinstance(n, ast.ImportFrom) and n.module and n.module.split(".")[0] in INERT_MODULES:
+            for a in n.names:
+                roots.add(a.asname or a.name)
+    for n in tree.body:
+        if isinstance(n, ast.Assign) and isinstance(n.value, ast.Call) and len(n.targets) == 1 and isinstance(n.targets[0], ast.Name):
+            r = n.value.func
+            while isinstance(r, (ast.Attribute, ast.Call)):
+                r = r.value if isinstance(r, ast.Attribute) else r.func
+            if isinstance(r, ast.Name) and r.id in roots:
+                roots.add(n.targets[0].id)
+    return roots
+
+
+class _DropInert(ast.NodeTransformer):
+    """N7: expression statements that only call into logging / warnings are dropped (they do not touch program state)"""
+
+    def __init__(self, roots):
+        self.roots = roots
+
+    def visit_Expr(self, node):
+        v = node.value
+        if isinstance(v, ast.Call):
+            r = v.func
+            while isinstance(r, (ast.Attribute, ast.Call)):
+                r = r.value if isinstance(r, ast.Attribute) else r.func
+            if isinstance(r, ast.Name) and r.id in self.roots:
+                return ast.copy_location(ast.Pass(), node)
+        return node
+
+
 def normalise(tree: ast.Module) -> ast.Module:
+    roots = _inert_roots(tree)
+    if roots:
+        tree = _DropInert(roots).visit(tree)
     tree = _N().visit(tree)
     ast.fix_missing_locations(tree)
     return tree
